@@ -9,7 +9,7 @@ TRUSTED_BASE = ['CBMC 6.11 + cadical', 'tools/extract.py rewrite rules', 'log2co
                 'rely of the lock unit (what other threads do to backingStoreLock) is written in specs/c41_sba.c others_act_lock()']
 ASSUMPTIONS = ['requests are powers of two <= 256 (callers use nextPow2; allocSmallBuffer<N> aligned to N only makes sense then)', 'A-SC',
                'block ids are a ghost universe of 64 ids; thread-local stack verified at the kIdeal/kMax constants of SmallBufferAllocator<64> (probe), count symbolic',
-               'NOT decided: carving of a malloc block into chunks in grabFromCentralStore (pairwise distinct, inside the block), thread-exit return of blocks, cross-thread exclusivity through the queue']
+               'NOT decided: thread-exit return of blocks, cross-thread exclusivity through the queue (axiom)']
 EXPLANATION = 'size-class arithmetic for all requests; stack discipline with ghost block states; lock exclusivity under interference'
 
 H = 'dispenso/small_buffer_allocator.h'
@@ -44,21 +44,44 @@ def build(ctx):
                    ('R17', r'kMallocBytes\s*\*\s*globals\.backingStore\.size\(\)', '((size_t)KMALLOC) * G_backingStore_size()', 1),
                    ('LC', r'(while\s*\(!A_CAS_weak_lock\(&g_lock, &allocId, 1, MO_\w+\)\))\s*\{',
                     r'\1 __CPROVER_assigns(allocId, g_lock, g_own_lock, g_touched_unlocked, g_bad_transfer, g_other_holds, g_last_mo) __CPROVER_loop_invariant(allocId == 0 && !g_own_lock && !g_bad_transfer && !g_touched_unlocked && (g_other_holds ==> g_lock >= 1) && (!g_other_holds ==> g_lock == 0)) {', 1)])
+    ASG = '__CPROVER_assigns(allocId, grabbed, buffer, i, g_slot_valid, __CPROVER_object_whole(buffers), g_lock, g_own_lock, g_touched_unlocked, g_bad_transfer, g_other_holds, g_last_mo, g_slab_base, g_slab_fresh, g_pushed_central, g_bad_block) '
+    LI = '!g_own_lock && !g_touched_unlocked && !g_bad_transfer && !g_bad_block && (g_other_holds ==> g_lock >= 1) && (!g_other_holds ==> g_lock == 0) && !g_slot_valid[g_k]'
+    ctx.emit('SBA_grabFromCentralStore.body.inc', r.function(I, r'static\s+size_t\s+grabFromCentralStore\s*\(\s*char\*\*\s*buffers\s*\)', within=CLS), must_fire=['R7', 'R8', 'R19', 'LC'],
+             subs=[('R8', r'auto&\s+queue\s*=\s*getThreadQueuingData\(\);\s*auto&\s+globals\s*=\s*getSmallBufferGlobals<kChunkSize>\(\);\s*auto&\s+lock\s*=\s*globals\.backingStoreLock;\s*auto&\s+backingStore\s*=\s*globals\.backingStore;', '/* queue, globals, lock, backingStore: ghost stubs */', 1),
+                   ('R17', r'queue\.try_dequeue_bulk\(buffers,\s*kIdealNumTLBuffers\)', 'G_try_dequeue_bulk(buffers, kIdealNumTLBuffers)', 1),
+                   ('R7', r'lock\.fetch_add\(1,\s*std::memory_order_(\w+)\)', r'A_FETCH_ADD_lock(&g_lock, 1, MO_\1)', 1),
+                   ('R19', r'char\*\s+buffer\s*=\s*reinterpret_cast<char\*>\(detail::alignedMalloc\(kMallocBytes,\s*kChunkSize\)\);', 'size_t buffer = G_alignedMalloc_slab(kMallocBytes, kChunkSize);', 1),
+                   ('R12', r'backingStore\.push_back\(buffer\);', 'G_backingStore_push(buffer);', 1),
+                   ('R5', r'constexpr\s+size_t\s+kNumToPush\s*=\s*kBuffersPerMalloc\s*-\s*kIdealNumTLBuffers;', '/* kNumToPush: macro of the spec, same expression */', 1),
+                   ('R12', r'char\*\s+topush\[kNumToPush\];', '', 1),
+                   ('R12', r'topush\[i\]\s*=\s*buffer;', 'G_topush_put(i, buffer);', 1),
+                   ('R17', r'queue\.enqueue_bulk\(topush,\s*kNumToPush\);', 'G_enqueue_bulk(kNumToPush);', 1),
+                   ('R7', r'lock\.store\(0,\s*std::memory_order_(\w+)\);', r'A_STORE_lock(&g_lock, 0, MO_\1);', 1),
+                   ('R12', r'buffers\[i\]\s*=\s*buffer;', 'G_buffers_put(buffers, i, buffer);', 1),
+                   ('R7', r'lock\.load\(std::memory_order_(\w+)\)', r'A_LOAD_lock(&g_lock, MO_\1)', 1),
+                   ('R16', r'std::this_thread::yield\(\);', 'G_this_thread_yield();', 1),
+                   ('LC', r'while\s*\(true\)\s*\{', 'while (true) __CPROVER_assigns(g_slot_valid, __CPROVER_object_whole(buffers), g_lock, g_own_lock, g_touched_unlocked, g_bad_transfer, g_other_holds, g_last_mo, g_slab_base, g_slab_fresh, g_pushed_central, g_bad_block) __CPROVER_loop_invariant(' + LI + ') {', 1),
+                   ('LC', r'(for\s*\(size_t i = 0; i < kNumToPush; \+\+i, buffer \+= kChunkSize\))\s*\{',
+                    r'\1 __CPROVER_assigns(i, buffer, g_bad_block) __CPROVER_loop_invariant(i <= kNumToPush && buffer == g_slab_base + i * kChunkSize && !g_bad_block) __CPROVER_decreases(kNumToPush - i) {', 1),
+                   ('LC', r'(for\s*\(size_t i = 0; i < kIdealNumTLBuffers; \+\+i, buffer \+= kChunkSize\))\s*\{',
+                    r'\1 __CPROVER_assigns(i, buffer, g_bad_block, g_slot_valid, __CPROVER_object_whole(buffers)) __CPROVER_loop_invariant(i <= kIdealNumTLBuffers && buffer == g_slab_base + (kNumToPush + i) * kChunkSize && !g_bad_block && (g_k < i ==> g_slot_valid[g_k])) __CPROVER_decreases(kIdealNumTLBuffers - i) {', 1),
+                   ('LC', r'while\s*\(A_LOAD_lock\(&g_lock, MO_relaxed\)\)\s*\{', 'while (A_LOAD_lock(&g_lock, MO_relaxed)) __CPROVER_assigns(g_lock, g_other_holds, g_last_mo) __CPROVER_loop_invariant(' + LI + ') {', 1)])
     # constants of SmallBufferAllocator<64> from the real header
     src = os.path.join(ctx.scratch, 'sba_probe.cpp')
-    open(src, 'w').write('#define private public\n#include <dispenso/detail/small_buffer_allocator_impl.h>\n#include <cstdio>\nint main(){using A=dispenso::detail::SmallBufferAllocator<64>;printf("%zu %zu %zu", A::kIdealNumTLBuffers, A::kMaxNumTLBuffers, A::kMallocBytes);}\n')
+    open(src, 'w').write('#define private public\n#include <dispenso/detail/small_buffer_allocator_impl.h>\n#include <cstdio>\nint main(){using A=dispenso::detail::SmallBufferAllocator<64>;printf("%zu %zu %zu %zu", A::kIdealNumTLBuffers, A::kMaxNumTLBuffers, A::kMallocBytes, A::kBuffersPerMalloc);}\n')
     exe = src[:-4] + '.out'
     p = subprocess.run(['g++', '-std=c++14', '-I', REPO, '-I', os.path.join(REPO, 'dispenso/third-party'), src, '-o', exe], capture_output=True, text=True)
     if p.returncode != 0:
         raise X.ExtractionError('SBA probe failed: ' + p.stderr[-400:])
-    kideal, kmax, kmalloc = subprocess.run([exe], capture_output=True, text=True).stdout.split()
-    d = {'ORD_TABLE_ALLOC': ta, 'ORD_TABLE_DEALLOC': td, 'ORD_TABLE_BYTES': tb, 'KIDEAL': kideal, 'KMAXTL': kmax, 'KMALLOC': kmalloc}
+    kideal, kmax, kmalloc, kper = subprocess.run([exe], capture_output=True, text=True).stdout.split()
+    d = {'ORD_TABLE_ALLOC': ta, 'ORD_TABLE_DEALLOC': td, 'ORD_TABLE_BYTES': tb, 'KIDEAL': kideal, 'KMAXTL': kmax, 'KMALLOC': kmalloc, 'KPERMALLOC': kper, 'KCHUNK': '64'}
     S = 'specs/c41_sba.c'
     units = [
         Unit('getOrdinal', 'cbmc', S, 'getOrdinal', defines=d, replace=['log2const64'], expect=[r'postcondition']),
         Unit('size_class(N)', 'cbmc', S, 'c41_size_class', defines=d, replace=['log2const64'], expect=[r'postcondition\.2']),
         Unit('SmallBufferAllocator::alloc', 'cbmc', S, 'SBA_alloc', defines=d, replace=['grabFromCentralStore'], expect=[r'postcondition\.2'], timeout=300, flags=['--nondet-static']),
         Unit('SmallBufferAllocator::dealloc', 'cbmc', S, 'SBA_dealloc', defines=d, replace=['recycleToCentralStore'], expect=[r'postcondition\.1'], timeout=300, flags=['--nondet-static']),
+        Unit('SmallBufferAllocator::grabFromCentralStore', 'cbmc', S, 'SBA_grabFromCentralStore', defines=d, replace=['G_try_dequeue_bulk'], loop_contracts=True, expect=[r'postcondition\.2', r'loop_invariant|loop_step'], timeout=600),
         Unit('SmallBufferAllocator::bytesAllocated', 'cbmc', S, 'SBA_bytesAllocated', defines=d, loop_contracts=True, expect=[r'postcondition\.1', r'loop_invariant|loop_step'], timeout=300,
              replay=dict(prog='replay/c41_replay.cpp', args=lambda ce, u: [], cxxflags=['-std=c++14'])),
     ]
